@@ -38,7 +38,7 @@ FORBIDDEN = re.compile(r"\b(Admitted|admit|Axiom|Axioms|Parameter|Parameters|Con
 
 def sh(cmd, cwd=None, env=None, timeout=None, inp=None):
     p = subprocess.run(cmd, cwd=cwd, env=env, timeout=timeout, input=inp, shell=isinstance(cmd, str),
-                       stdout=subprocess.PIPE, stderr=subprocess.STDOUT, text=True)
+                       stdout=subprocess.PIPE, stderr=subprocess.STDOUT, text=True, errors="replace")
     return p.returncode, p.stdout
 
 
@@ -252,7 +252,7 @@ def run_lines(binary_cmd, text, timeout=3000, shards=16):
     """Feed case lines to a line-oriented binary; large inputs are split over parallel processes."""
     lines = text.splitlines()
     if len(lines) < 2000 or shards <= 1:
-        p = subprocess.run(binary_cmd, input=text, stdout=subprocess.PIPE, stderr=subprocess.PIPE, text=True,
+        p = subprocess.run(binary_cmd, input=text, stdout=subprocess.PIPE, stderr=subprocess.PIPE, text=True, errors="replace",
                            timeout=timeout, env=GOENV)
         return p.returncode, p.stdout, p.stderr
     import tempfile
@@ -652,7 +652,7 @@ def check_c02(tier, seed, res):
     # take the machine down.
     for depth, expect_ok in ((10000, True), (3000000, False)):
         try:
-            p = subprocess.run("ulimit -v 8000000; exec %s k1 %d" % (VH, depth), shell=True, stdout=subprocess.PIPE, stderr=subprocess.PIPE, text=True, timeout=300, env=GOENV)
+            p = subprocess.run("ulimit -v 8000000; exec %s k1 %d" % (VH, depth), shell=True, stdout=subprocess.PIPE, stderr=subprocess.PIPE, text=True, errors="replace", timeout=300, env=GOENV)
             out, err, rc = p.stdout, p.stderr, p.returncode
         except subprocess.TimeoutExpired:
             out, err, rc = "", "timeout", -1
@@ -1501,7 +1501,7 @@ def life_check(pid, gens, n, tier, seed, res):
         chunk = runlines[j::k]
         if not chunk:
             continue
-        procs.append(subprocess.Popen([VH, "run"], stdin=subprocess.PIPE, stdout=subprocess.PIPE, stderr=subprocess.PIPE, text=True, env=env))
+        procs.append(subprocess.Popen([VH, "run"], stdin=subprocess.PIPE, stdout=subprocess.PIPE, stderr=subprocess.PIPE, text=True, errors="replace", env=env))
         procs[-1]._chunk = "\n".join(chunk) + "\n"
     outs = []
     import threading
@@ -1617,7 +1617,7 @@ LIFE_RULES = {
 def k1_live(res):
     """K1 against a running server with a bystander connection (process of its own, address space capped)."""
     try:
-        p = subprocess.run("ulimit -v 8000000; exec %s k1 3000000 live" % VH, shell=True, stdout=subprocess.PIPE, stderr=subprocess.PIPE, text=True, timeout=300, env=GOENV)
+        p = subprocess.run("ulimit -v 8000000; exec %s k1 3000000 live" % VH, shell=True, stdout=subprocess.PIPE, stderr=subprocess.PIPE, text=True, errors="replace", timeout=300, env=GOENV)
         out, err, rc = p.stdout, p.stderr, p.returncode
     except subprocess.TimeoutExpired:
         out, err, rc = "", "timeout", -1
@@ -1644,7 +1644,7 @@ def make_life_check(pid, gens):
             # a client that stalls in its TLS handshake on a TLS listener, with bystanders before and after
             env = dict(GOENV, VERIF_CERTDIR=os.path.join(WORK, "certs"))
             for how in ("idle", "partial"):
-                p = subprocess.run([VH, "run"], input="c07tlsstall %s %s\n" % (how, how), stdout=subprocess.PIPE, stderr=subprocess.PIPE, text=True, env=env, timeout=120)
+                p = subprocess.run([VH, "run"], input="c07tlsstall %s %s\n" % (how, how), stdout=subprocess.PIPE, stderr=subprocess.PIPE, text=True, errors="replace", env=env, timeout=120)
                 r = parse_results(p.stdout).get(("c07tlsstall", how), "HARNESS no result")
                 res.evaluations += 1
                 res.nontrivial.add("c07tlsstall " + how)
@@ -1673,7 +1673,7 @@ def check_c05(tier, seed, res):
     env = dict(GOENV, VERIF_CERTDIR=os.path.join(WORK, "certs"))
     os.makedirs(env["VERIF_CERTDIR"], exist_ok=True)
     subprocess.run([VH, "gencerts"], env=env, timeout=60)
-    p = subprocess.run([VH, "run"], input=cases, stdout=subprocess.PIPE, stderr=subprocess.PIPE, text=True, env=env, timeout=3000)
+    p = subprocess.run([VH, "run"], input=cases, stdout=subprocess.PIPE, stderr=subprocess.PIPE, text=True, errors="replace", env=env, timeout=3000)
     open(os.path.join(wd("C05"), "main.cases"), "w").write(cases)
     open(os.path.join(wd("C05"), "main.impl"), "w").write(p.stdout)
     impl = parse_results(p.stdout)
@@ -1725,7 +1725,7 @@ def check_c18(tier, seed, res):
     env = dict(GOENV, VERIF_CERTDIR=os.path.join(WORK, "certs"))
     os.makedirs(env["VERIF_CERTDIR"], exist_ok=True)
     subprocess.run([VH, "gencerts"], env=env, timeout=60)
-    p = subprocess.run([VH, "run"], input=cases, stdout=subprocess.PIPE, stderr=subprocess.PIPE, text=True, env=env, timeout=3000)
+    p = subprocess.run([VH, "run"], input=cases, stdout=subprocess.PIPE, stderr=subprocess.PIPE, text=True, errors="replace", env=env, timeout=3000)
     open(os.path.join(wd("C18"), "main.cases"), "w").write(cases)
     open(os.path.join(wd("C18"), "main.impl"), "w").write(p.stdout)
     impl = parse_results(p.stdout)
@@ -1782,7 +1782,7 @@ def check_c15(tier, seed, res):
         cases += gen_cases(gname, seed, n, tier)
     # the forced interleavings and fault scenarios are always all in
     forced = ""
-    for gname in ["c12accept", "c12slowstop", "c11accept", "c07accept", "c07stall", "c08edges"]:
+    for gname in ["c12accept", "c12slowstop", "c15timer", "c11accept", "c07accept", "c07stall", "c08edges"]:
         forced += gen_cases(gname, seed, n, tier)
     lines = [l for l in cases.splitlines() if l]
     if tier == "quick":
@@ -1802,7 +1802,7 @@ def check_c15(tier, seed, res):
     import threading
     for j in range(kk):
         chunk = alltext[j::kk]
-        p = subprocess.Popen([VH, "run"], stdin=subprocess.PIPE, stdout=subprocess.PIPE, stderr=subprocess.PIPE, text=True, env=env)
+        p = subprocess.Popen([VH, "run"], stdin=subprocess.PIPE, stdout=subprocess.PIPE, stderr=subprocess.PIPE, text=True, errors="replace", env=env)
         p._chunk = "\n".join(chunk) + "\n"
         procs.append(p)
     def feed(p):
